@@ -12,8 +12,9 @@ Proof. unfold set_bip. destruct (negb (bip s =? 0) && (clamp c x =? 0)); reflexi
 
 Lemma pc_apply_op v c s o : pc (fst (apply_op v c s o)) = pc s.
 Proof.
-  destruct o; cbn [apply_op fst].
-  - destruct (drainh s && negb (n =? 0)); [apply pc_set_bip | reflexivity].
+  destruct o; cbn [apply_op op_st fst].
+  - change (pc (set_pf ?a ?x)) with (pc x). destruct (drainh s && negb (n =? 0)); [apply pc_set_bip | reflexivity].
+  - reflexivity.
   - apply pc_set_bip.
   - reflexivity.
   - reflexivity.
@@ -50,7 +51,17 @@ Definition enabled (v : variant) (s : st) : Prop :=
   match pc s with
   | WaitBall => endev s = true
   | WaitPlayer => wait_player_ready v s = true
+  | WaitEmpty => (pf s <=? 0) = true
   | _ => True
+  end.
+
+(* the coroutine stays suspended after an idle batch exactly when the awaited condition does not hold *)
+Definition waiting (v : variant) (s : st) : Prop :=
+  match pc s with
+  | WaitBall => endev s = false
+  | WaitPlayer => wait_player_ready v s = false
+  | WaitEmpty => (pf s <=? 0) = false
+  | _ => False
   end.
 
 (* ------------------------------------------------------------------------------------------- *)
@@ -81,8 +92,8 @@ Section Monitor.
   Hypothesis H_flush : forall s m, Rm s m -> Rb (flush v c s) m.
   Hypothesis H_adv : forall s m, Rb s m -> enabled v s ->
     exists m', mrun m (snd (advance v c s)) = Some m' /\ Rb (fst (advance v c s)) m'.
-  Hypothesis H_idle : forall s m, Rb s m ->
-    exists m', mstep m (Idle (bip s) (np s)) = Some m' /\ Rb s m'.
+  Hypothesis H_idle : forall s m, Rb s m -> waiting v s ->
+    exists m', mstep m (Idle (bip s) (np s) (pf s)) = Some m' /\ Rb s m'.
 
   Lemma mon_batch : forall ops s m, Rm s m ->
     exists m', mrun m (snd (batch v c s ops)) = Some m' /\ Rb (fst (batch v c s ops)) m'.
@@ -110,15 +121,16 @@ Section Monitor.
 
   Lemma mon_wait : forall s m ops (ready : st -> bool), Rb s m ->
     (forall s1, pc s1 = pc s -> ready s1 = true -> enabled v s1) ->
+    (forall s1, pc s1 = pc s -> ready s1 = false -> waiting v s1) ->
     exists m',
       mrun m (snd (let (s1, o1) := batch v c s ops in
                    if ready s1 then let (s3, o3) := advance v c s1 in (s3, o1 ++ o3)
-                   else (s1, o1 ++ [Idle (bip s1) (np s1)]))) = Some m' /\
+                   else (s1, o1 ++ [Idle (bip s1) (np s1) (pf s1)]))) = Some m' /\
       Rb (fst (let (s1, o1) := batch v c s ops in
                if ready s1 then let (s3, o3) := advance v c s1 in (s3, o1 ++ o3)
-               else (s1, o1 ++ [Idle (bip s1) (np s1)]))) m'.
+               else (s1, o1 ++ [Idle (bip s1) (np s1) (pf s1)]))) m'.
   Proof.
-    intros s m ops ready H Hen.
+    intros s m ops ready H Hen Hwt.
     destruct (mon_batch ops s m (H_open _ _ H)) as [m1 [E1 R1]].
     pose proof (pc_batch v c ops s) as Epc.
     destruct (batch v c s ops) as [s1 o1]; cbn [fst snd] in *.
@@ -126,14 +138,14 @@ Section Monitor.
     - destruct (H_adv s1 m1 R1 (Hen s1 Epc Er)) as [m3 [E3 R3]].
       destruct (advance v c s1) as [s3 o3]; cbn [fst snd] in *.
       exists m3; split; [|exact R3]. rewrite mrun_app, E1. exact E3.
-    - destruct (H_idle s1 m1 R1) as [m3 [E3 R3]].
+    - destruct (H_idle s1 m1 R1 (Hwt s1 Epc Er)) as [m3 [E3 R3]].
       exists m3; split; [|exact R3]. cbn [fst snd]. rewrite mrun_app, E1. cbn. rewrite E3. reflexivity.
   Qed.
 
   Lemma mon_step : forall s m i, Rb s m ->
     exists m', mrun m (snd (step_g v c s i)) = Some m' /\ Rb (fst (step_g v c s i)) m'.
   Proof.
-    intros s m i H. unfold step_g. destruct (pc s) as [k| | |] eqn:Epc.
+    intros s m i H. unfold step_g. destruct (pc s) as [k| | | |] eqn:Epc.
     - destruct (mon_batch (ev_ops i) s m (H_open _ _ H)) as [m1 [E1 R1]].
       pose proof (pc_batch v c (ev_ops i) s) as P1.
       destruct (batch v c s (ev_ops i)) as [s1 o1]; cbn [fst snd] in *.
@@ -145,9 +157,14 @@ Section Monitor.
       destruct (advance v c s2) as [s3 o3]; cbn [fst snd] in *.
       exists m3; split; [|exact R3]. rewrite mrun_app, E1, mrun_app, E2. exact E3.
     - apply (mon_wait s m (idle_ops i) endev H).
-      intros s1 P1 Er. unfold enabled. rewrite P1, Epc. exact Er.
+      + intros s1 P1 Er. unfold enabled. rewrite P1, Epc. exact Er.
+      + intros s1 P1 Er. unfold waiting. rewrite P1, Epc. exact Er.
     - apply (mon_wait s m (idle_ops i) (wait_player_ready v) H).
-      intros s1 P1 Er. unfold enabled. rewrite P1, Epc. exact Er.
+      + intros s1 P1 Er. unfold enabled. rewrite P1, Epc. exact Er.
+      + intros s1 P1 Er. unfold waiting. rewrite P1, Epc. exact Er.
+    - apply (mon_wait s m (idle_ops i) (fun x => pf x <=? 0) H).
+      + intros s1 P1 Er. unfold enabled. rewrite P1, Epc. exact Er.
+      + intros s1 P1 Er. unfold waiting. rewrite P1, Epc. exact Er.
     - exists m; split; [reflexivity | exact H].
   Qed.
 
@@ -201,13 +218,15 @@ Proof. unfold upd_cur. destruct (cur s); reflexivity. Qed.
 Definition bp_ok (c : cfg) (o : out) : Prop :=
   match o with
   | Ev _ _ _ _ bp _ => 0 <= bp <= nbk c
-  | Idle bp _ => 0 <= bp <= nbk c
+  | Idle bp _ _ => 0 <= bp <= nbk c
+  | OpObs _ bp => 0 <= bp <= nbk c
   | _ => True
   end.
 Definition bp_okb (c : cfg) (o : out) : bool :=
   match o with
   | Ev _ _ _ _ bp _ => (0 <=? bp) && (bp <=? nbk c)
-  | Idle bp _ => (0 <=? bp) && (bp <=? nbk c)
+  | Idle bp _ _ => (0 <=? bp) && (bp <=? nbk c)
+  | OpObs _ bp => (0 <=? bp) && (bp <=? nbk c)
   | _ => true
   end.
 Definition bstep (c : cfg) (m : unit) (o : out) : option unit := if bp_okb c o then Some tt else None.
@@ -255,22 +274,30 @@ Proof.
   { unfold steps. apply (mon_steps (bstep c) fixed c (Rbip c) (Rbip c)).
     - auto.
     - intros s m o H. destruct m. exists tt. unfold Rbip in *.
-      destruct o; cbn [apply_op fst snd mrun]; (split; [reflexivity|]).
-      + destruct (drainh s && negb (n =? 0)); [rewrite bip_set_bip; apply clamp_bounds; exact Hn | exact H].
-      + rewrite bip_set_bip; apply clamp_bounds; exact Hn.
-      + exact H.
-      + exact H.
-      + destruct (ending s); exact H.
-      + destruct (gate fixed c s && allowed); exact H.
-      + destruct (if newest then rev (heldq s) else heldq s); exact H.
-      + rewrite bip_upd_cur. exact H.
+      assert (B : 0 <= bip (op_st fixed c s o) <= nbk c).
+      { destruct o; cbn [op_st].
+        + change (bip (set_pf ?a ?x)) with (bip x).
+          destruct (drainh s && negb (n =? 0)); [rewrite bip_set_bip; apply clamp_bounds; exact Hn | exact H].
+        + exact H.
+        + rewrite bip_set_bip; apply clamp_bounds; exact Hn.
+        + exact H.
+        + exact H.
+        + destruct (ending s); exact H.
+        + destruct (gate fixed c s && allowed); exact H.
+        + destruct (if newest then rev (heldq s) else heldq s); exact H.
+        + rewrite bip_upd_cur. exact H. }
+      split; [|exact B].
+      assert (O : bstep c tt (OpObs (opcode s o) (bip (op_st fixed c s o))) = Some tt).
+      { unfold bstep, bp_okb. destruct B as [B1 B2]. apply Z.leb_le in B1. apply Z.leb_le in B2. rewrite B1, B2. reflexivity. }
+      unfold apply_op. cbn [fst snd]. destruct o; cbn [app mrun]; rewrite ?O; try reflexivity.
+      unfold bstep at 1. cbn [bp_okb]. rewrite O. reflexivity.
     - intros s m H. unfold Rbip in *. flush_cases; exact H.
     - intros s m H _. destruct m. unfold advance.
       assert (G : forall k s', Rbip c s' tt ->
                 exists m', mrun (bstep c) tt (snd (goto k s')) = Some m' /\ Rbip c (fst (goto k s')) m')
         by (intros; apply goto_bip; assumption).
       assert (Z0 : forall s', Rbip c (set_bipraw 0 s') tt) by (intro; unfold Rbip; cbn; lia).
-      destruct (pc s) as [[]| | |]; try (apply G; exact H).
+      destruct (pc s) as [[]| | | |]; try (apply G; exact H).
       + (* GSg *) destruct (0 <? np s)%nat; [apply G; exact H|].
         assert (A : Rbip c (add_first_player c (set_pev false s)) tt)
           by (unfold add_first_player; destruct (hold_adds c); exact H).
@@ -282,13 +309,15 @@ Proof.
       + (* PTSg *) apply G. unfold Rbip in *. cbn. rewrite bip_upd_cur. exact H.
       + (* PTEd *) unfold after_turn.
         destruct (slam (set_tactive false s) || _); apply loop_head_bip; unfold Rbip, rotate in *; cbn; exact H.
+      + (* BWS *) destruct (0 <? pf s); [exists tt; split; [reflexivity|exact H] | apply G; exact H].
       + (* BSg *) apply G. unfold Rbip. rewrite bip_set_bip. apply clamp_bounds; exact Hn.
-      + (* BSd *) unfold await_end. destruct (endev s); [unfold end_ball; apply G; apply Z0 | exists tt; split; [reflexivity|exact H]].
+      + (* BSd *) unfold await_end. change (endev (set_pf ?a ?x)) with (endev x).
+        destruct (endev s); [unfold end_ball; apply G; apply Z0 | exists tt; split; [reflexivity|exact H]].
       + (* BEd *) destruct ((0 <? pextra s)%nat && negb (slam s)); [|apply G; exact H].
         unfold run_ball. apply G. unfold Rbip in *. cbn. rewrite bip_upd_cur. exact H.
       + (* WaitBall *) unfold await_end. destruct (endev s); [unfold end_ball; apply G; apply Z0 | exists tt; split; [reflexivity|exact H]].
       + (* Done *) exists tt; split; [reflexivity|exact H].
-    - intros s m H. exists tt. split; [|exact H]. unfold bstep, bp_okb. unfold Rbip in H. destruct H as [H1 H2].
+    - intros s m H _. exists tt. split; [|exact H]. unfold bstep, bp_okb. unfold Rbip in H. destruct H as [H1 H2].
       apply Z.leb_le in H1. apply Z.leb_le in H2. rewrite H1, H2. reflexivity.
     - unfold Rbip, init; cbn; lia. }
   destruct HS as [m' [E R]]. split.
@@ -354,9 +383,10 @@ Qed.
 
 Lemma Keep_apply_op v c s o : Keep s (fst (apply_op v c s o)).
 Proof.
-  destruct o; cbn [apply_op fst].
-  - destruct (drainh s && negb (n =? 0)); [|apply Keep_refl].
+  destruct o; cbn [apply_op op_st fst].
+  - destruct (drainh s && negb (n =? 0)); [|unfold Keep; cbn; intuition].
     destruct (set_bip_form c (bip s - n) s) as [b [e ->]]. unfold Keep; cbn; intuition.
+  - unfold Keep; cbn; intuition.
   - destruct (set_bip_form c (bip s + d) s) as [b [e ->]]. unfold Keep; cbn; intuition.
   - unfold Keep; cbn; intuition.
   - unfold Keep; cbn; intuition.
@@ -385,8 +415,9 @@ Definition same (p b p' b' : nat) : bool := (p =? p')%nat && (b =? b')%nat.
 
 Definition gstep (g : gst) (o : out) : option gst :=
   match o with
-  | Idle _ _ => Some g
+  | Idle _ _ _ => Some g
   | Award _ => Some g
+  | OpObs _ _ => Some g
   | Fin => match g with E3 => Some EF | _ => None end
   | Ev k p b x _ _ =>
       match g, k with
@@ -420,7 +451,7 @@ Definition g_of (s : st) : gst :=
   match pc s with
   | AtEv GWS => G1 | AtEv GSg => G2 | WaitPlayer => G2 | AtEv GSd => GL
   | AtEv PTWS => T1 p (S b) | AtEv PTSg => T2 p (S b) | AtEv PTSd => B0 p b
-  | AtEv BWS => B1 p b (xb s) | AtEv BSg => B2 p b (xb s) | AtEv BSd => B3 p b | WaitBall => B3 p b
+  | AtEv BWS => B1 p b (xb s) | WaitEmpty => B1 p b (xb s) | AtEv BSg => B2 p b (xb s) | AtEv BSd => B3 p b | WaitBall => B3 p b
   | AtEv BWE => B4 p b | AtEv BEg => B5 p b | AtEv BEd => TA p b
   | AtEv PTWE => T4 p b | AtEv PTEg => T5 p b | AtEv PTEd => GL
   | AtEv GWE => E1 | AtEv GEg => E2 | AtEv GEd => E3 | Done => EF
@@ -428,7 +459,7 @@ Definition g_of (s : st) : gst :=
 
 Definition in_turn (p : pc_t) : bool :=
   match p with
-  | AtEv (PTWS | PTSg | PTSd | PTWE | PTEg | PTEd | BWS | BSg | BSd | BWE | BEg | BEd) | WaitBall => true
+  | AtEv (PTWS | PTSg | PTSd | PTWE | PTEg | PTEd | BWS | BSg | BSd | BWE | BEg | BEd) | WaitBall | WaitEmpty => true
   | _ => false
   end.
 Definition is_done (p : pc_t) : bool := match p with Done => true | _ => false end.
@@ -447,9 +478,10 @@ Proof. intros (H1 & H2 & H3 & H4 & _). unfold g_of. rewrite H1, H2, H3, H4. refl
 
 Lemma pev_apply_op v c s o : pev (fst (apply_op v c s o)) = pev s.
 Proof.
-  destruct o; cbn [apply_op fst].
+  destruct o; cbn [apply_op op_st fst].
   - destruct (drainh s && negb (n =? 0)); [|reflexivity].
     destruct (set_bip_form c (bip s - n) s) as [b [e ->]]; reflexivity.
+  - reflexivity.
   - destruct (set_bip_form c (bip s + d) s) as [b [e ->]]; reflexivity.
   - reflexivity.
   - reflexivity.
@@ -511,7 +543,7 @@ Proof.
   { intro Hp. destruct (pev_flush fixed c s Hp) as [A|A]; [specialize (I5 A); lia | exact A]. }
   destruct (Nat.eq_dec (cur s) 0) as [Z|NZ].
   - destruct (cur_flush0 c s Z) as [C1 C2]. split.
-    + unfold g_of. rewrite P, X1. destruct (pc s) as [[]| | |]; try reflexivity;
+    + unfold g_of. rewrite P, X1. destruct (pc s) as [[]| | | |]; try reflexivity;
         (exfalso; cbn in I2; specialize (I2 eq_refl); lia).
     + unfold Inv. rewrite P, X2, X3.
       repeat split; auto; try lia; try (intro T; specialize (I2 T); lia);
@@ -613,7 +645,7 @@ Lemma Rg_adv c s g : Rg s g -> enabled fixed s ->
 Proof.
   intros [-> HI] En. pose proof HI as (I1 & I2 & I3 & I4 & I5).
   unfold advance, g_of. unfold enabled in En.
-  destruct (pc s) as [[]| | |] eqn:Epc; cbn [in_turn is_done negb] in *;
+  destruct (pc s) as [[]| | | |] eqn:Epc; cbn [in_turn is_done negb] in *;
     try specialize (I2 eq_refl).
   - (* GWS *) eapply goto_g; [reflexivity|reflexivity|inv_simple].
   - (* GSg *)
@@ -669,11 +701,14 @@ Proof.
     + apply loop_head_g; simpl; auto.
     + destruct (rotate_facts (set_tactive false s) NP) as ([R1 R2] & R3 & R4 & R5 & R6).
       apply loop_head_g; [lia | rewrite R5; exact I4 | right; rewrite R3; exact NP | intros _; rewrite R3; exact NP].
-  - (* BWS *) eapply goto_g; [unfold ev_of; cbn [gstep is_game_kind]; rewrite same_refl, eqb_reflx; reflexivity | reflexivity | inv_simple].
+  - (* BWS *) destruct (0 <? pf s).
+    + exists (B1 (cur s) (pball s) (xb s)). split; [reflexivity|]. split; [reflexivity|].
+      unfold Inv; simpl. repeat split; auto; discriminate.
+    + eapply goto_g; [unfold ev_of; cbn [gstep is_game_kind]; rewrite same_refl, eqb_reflx; reflexivity | reflexivity | inv_simple].
   - (* BSg *)
     destruct (set_bip_form c 1 (set_drainh true s)) as [b [e ->]].
     eapply goto_g; [unfold ev_of; simpl; rewrite same_refl, eqb_reflx; reflexivity | reflexivity | inv_simple].
-  - (* BSd *) unfold await_end. destruct (endev s).
+  - (* BSd *) unfold await_end. change (endev (set_pf ?a ?x)) with (endev x). destruct (endev s).
     + unfold end_ball. eapply goto_g; [unfold ev_of; simpl; rewrite same_refl; reflexivity | reflexivity | inv_simple].
     + exists (B3 (cur s) (pball s)). split; [reflexivity|]. split; [reflexivity|].
       unfold Inv; simpl. repeat split; auto; discriminate.
@@ -700,6 +735,7 @@ Proof.
     apply Inv_set_pc; auto; try discriminate.
     intros _. unfold wait_player_ready in En. simpl in En.
     apply orb_true_iff in En as [En|En]; [left; exact En | right; apply I5; exact En].
+  - (* WaitEmpty *) eapply goto_g; [unfold ev_of; cbn [gstep is_game_kind]; rewrite same_refl, eqb_reflx; reflexivity | reflexivity | inv_simple].
   - (* Done *) exists EF. split; [reflexivity|]. unfold Rg, g_of. cbn [fst]. rewrite Epc. split; [reflexivity | exact HI].
 Qed.
 
@@ -717,7 +753,7 @@ Proof.
     + split; [symmetry; apply g_of_Keep; exact K | eapply Inv_Keep; [exact K | apply pev_apply_op | exact HI]].
   - intros; apply Rg_flush; assumption.
   - intros; apply Rg_adv; assumption.
-  - intros s g H. exists g. split; [reflexivity | exact H].
+  - intros s g H _. exists g. split; [reflexivity | exact H].
   - apply Rg_init.
 Qed.
 
@@ -756,6 +792,9 @@ Proof.
     + cbn in E. inversion E; subst. rewrite IH. cbn. split.
       * intros [A|A]; [left; exact A | right; right; exact A].
       * intros [A|[A|A]]; [left; exact A | discriminate | right; exact A].
+    + cbn in E. inversion E; subst. rewrite IH. cbn. split.
+      * intros [A|A]; [left; exact A | right; right; exact A].
+      * intros [A|[A|A]]; [left; exact A | discriminate | right; exact A].
     + destruct g; cbn in E; try discriminate. inversion E; subst.
       rewrite (mrun_EF _ _ H). cbn. split; [intros _; right; left; reflexivity | reflexivity].
 Qed.
@@ -771,7 +810,7 @@ Proof.
   - rewrite I4. destruct (pc (final c ins)); cbn; split; intro; congruence.
   - pose proof (fin_EF _ _ _ E) as F. unfold trace, out0. cbn [app In]. split.
     + intros [A|A]; [discriminate|]. assert (X : g = EF) by (apply F; right; exact A).
-      rewrite Hg in X. unfold g_of in X. destruct (pc (final c ins)) as [[]| | |]; try discriminate; reflexivity.
+      rewrite Hg in X. unfold g_of in X. destruct (pc (final c ins)) as [[]| | | |]; try discriminate; reflexivity.
     + intro D. right. assert (X : g = EF) by (rewrite Hg; unfold g_of; rewrite D; reflexivity).
       apply F in X as [X|X]; [discriminate | exact X].
   - intros D more. unfold trace, final, steps in *. rewrite steps_app.
@@ -807,6 +846,22 @@ Definition hang_cfg : cfg := mkcfg 3 4 3 true false.
 Definition hang_ins : list input := [calm; mkin [EndGame] [] []].
 Definition retry : input := mkin [] [] [AddPlayerReq true; EndGame; EndBall; Drain 1].
 
+Definition hung (p : Z) : st :=
+  mkst WaitPlayer [] 0%nat 0 true true false false false 0%nat [] [] false false true p.
+
+Lemma hung_step p : step_g unfixed hang_cfg (hung p) retry =
+  (hung (p - 1), [OpObs 0 0; OpObs 2 0; OpObs 1 0; OpObs 0 0; Idle 0 0%nat (p - 1)]).
+Proof. reflexivity. Qed.
+
+Lemma hung_forever : forall n p,
+  let s := fst (steps_g unfixed hang_cfg (hung p) (repeat retry n)) in pc s = WaitPlayer /\ active s = true.
+Proof.
+  induction n as [|n IH]; intro p; cbv zeta.
+  - cbn. split; reflexivity.
+  - cbn [repeat steps_g]. rewrite hung_step. specialize (IH (p - 1)). cbv zeta in IH.
+    destruct (steps_g unfixed hang_cfg (hung (p - 1)) (repeat retry n)) as [s2 o2]. cbn [fst snd] in *. exact IH.
+Qed.
+
 Lemma game_hangs_refuted_unfixed_l :
   exists c ins, forall n,
     let s := fst (steps_g unfixed c init (ins ++ repeat retry n)) in
@@ -814,14 +869,9 @@ Lemma game_hangs_refuted_unfixed_l :
 Proof.
   exists hang_cfg, hang_ins. intro n. cbv zeta. rewrite steps_app.
   destruct (steps_g unfixed hang_cfg init hang_ins) as [s1 o1] eqn:E1.
-  assert (H : s1 = mkst WaitPlayer [] 0%nat 0 true true false false false 0%nat [] [] false false true)
-    by (vm_compute in E1; congruence).
-  subst s1. clear E1. induction n as [|n IH].
-  - cbn. split; reflexivity.
-  - cbn [repeat steps_g]. replace (step_g unfixed hang_cfg _ retry) with
-      (mkst WaitPlayer [] 0%nat 0 true true false false false 0%nat [] [] false false true,
-       [Idle 0 0%nat]) by (vm_compute; reflexivity).
-    destruct (steps_g unfixed hang_cfg _ (repeat retry n)) as [s2 o2]. cbn [fst snd] in *. exact IH.
+  assert (H : s1 = hung 0) by (vm_compute in E1; unfold hung; congruence).
+  subst s1. clear E1. pose proof (hung_forever n 0) as F. cbv zeta in F.
+  destruct (steps_g unfixed hang_cfg (hung 0) (repeat retry n)) as [s2 o2]. cbn [fst snd] in *. exact F.
 Qed.
 
 Lemma hang_fixed_ends : pc (final hang_cfg hang_ins) = AtEv GSd /\
